@@ -249,7 +249,10 @@ def fixed_scenarios(ctx):
     GS, GL_ = (('gstar',),), (('gstarlong',),)
     lit = lambda x: tuple(('lit', c) for c in x)  # noqa: E731
     shapes = [[GS], [GL_], [GS, lit('z')], [GS, lit('m'), (('star',),)], [GL_, lit('z')], [lit('m'), GS], [(('star',),), GS, lit('z')],
-              [lit('z')], [lit('m'), (('star',),)], [GS, lit('m')], [GS, GS, lit('z')], [GL_, lit('m'), GS], [(('q',),)], [GS, lit('lnk'), (('star',),)]]
+              [lit('z')], [lit('m'), (('star',),)], [GS, lit('m')], [GS, GS, lit('z')], [GL_, lit('m'), GS], [(('q',),)], [GS, lit('lnk'), (('star',),)],
+              # a written first segment, then a recursive one: behind match's / rglob's implicit prefix that is a second capture
+              [lit('x'), GS, lit('z')], [lit('m'), GS, lit('z')], [lit('A'), GS, lit('z')], [lit('y'), GS], [lit('m'), GS], [lit('x'), GS, lit('m'), (('star',),)],
+              [(('star',),), GS, lit('z')], [lit('t'), GS, lit('z')], [lit('a'), GS, lit('z')]]
     fsets = [('GLOBSTARLONG', 'FOLLOW'), ('GLOBSTARLONG',), ('GLOBSTAR', 'FOLLOW'), ('GLOBSTAR',), ('GLOBSTARLONG', 'FOLLOW', 'DOTGLOB'),
              ('GLOBSTAR', 'GLOBSTARLONG', 'FOLLOW'), ('GLOBSTARLONG', 'FOLLOW', 'NODIR'), ('GLOBSTAR', 'NOUNIQUE')]
     idx = 0
